@@ -147,7 +147,7 @@ func checkHistory(h history) *rp.Fail {
 	for _, dv := range h.Cfg.Devices {
 		serials = append(serials, dv.Serial)
 	}
-	serials = append(serials, 999001, 999002)
+	serials = append(serials, 999001, 999002, 424242) // 424242 is the entry the history may insert into a DeviceList() map
 
 	recheck := func(stage string) *rp.Fail {
 		for _, r := range results {
